@@ -381,7 +381,9 @@ impl Check for C08 {
                             }
                         }
                         Ok(None) => {
-                            sh.violation("C08|rejected-wellformed", format!("parse_str rejected a variant the reference reader considers well-formed\n{mt}"), json!({"text": mt}));
+                            // same classification as for generated files (the known consth limitation of the value library can be reached by changing a sort id)
+                            let cause = rejection_cause(&b2);
+                            sh.violation(format!("C08|rejected-wellformed|{cause}"), format!("parse_str rejected a variant the reference reader considers well-formed ({cause})\n{mt}"), json!({"text": mt}));
                             return;
                         }
                         Err(p) => {
